@@ -332,3 +332,9 @@ mod tests {
         assert_eq!(squared, &expected);
     }
 }
+
+/// Hooks for the external verification harness in `/verif`. Only compiled with
+/// `RUSTFLAGS="--cfg rten_verif"`; ordinary builds are unaffected.
+#[cfg(rten_verif)]
+#[doc(hidden)]
+pub mod verif;
